@@ -82,6 +82,9 @@ class Checker:
         self._model_fns = set()
         self._trust_roots = set()
         in_deg_nodes = set()
+        for idx, node in enumerate(self.model.nodes):
+            if node.id != idx:
+                raise LvsModelError(f"Malformed node id {idx}")
         adj_lst = {n.id: [] for n in self.model.nodes}
         nodes_id_lst = set(adj_lst.keys())
 
